@@ -77,6 +77,9 @@ func (w *simWorld) inboundUsable(r *annRoute, src *PeerCfg) bool {
 	if isIBGPKind(src.Kind) && r.Spec.Originator == g.RouterID {
 		return false
 	}
+	if isIBGPKind(src.Kind) && hasString(r.Spec.ClusterList, g.RouterID) {
+		return false // the local cluster-id (default: the router id) in CLUSTER_LIST
+	}
 	return true
 }
 
